@@ -163,6 +163,9 @@ func main() {
 				}
 			}
 			if touched {
+				if mapsRewritten[relf] && !astutil.UsesImport(f, "maps") {
+					astutil.DeleteImport(p.Fset, f, "maps")
+				}
 				astutil.AddNamedImport(p.Fset, f, "verifsimrt", rtPath)
 				changed[name] = f
 				fsets[name] = p.Fset
@@ -264,6 +267,7 @@ func main() {
 // simulator has no seam for in the given package (the worlds compare the list
 // with a committed baseline and say so when the tree under test has new ones).
 var unsim []string
+var mapsRewritten = map[string]bool{} // files in which a maps.Keys/Values/All call was replaced (the import may have become unused)
 var concSkipped []string // concurrency constructs in compile/schema that R4 could not rewrite (c11 mode)
 var unsimPos = map[string][]string{} // entry -> source positions of its occurrences
 var handledPos = map[string]bool{}   // positions of select statements R4 rewrote
@@ -292,6 +296,11 @@ func scanUnsimulated(p *packages.Package, f *ast.File, relf string) {
 			add("select", x)
 		case *ast.CallExpr:
 			if sel, ok := x.Fun.(*ast.SelectorExpr); ok {
+				if selection := p.TypesInfo.Selections[sel]; selection != nil && (sel.Sel.Name == "MapKeys" || sel.Sel.Name == "MapRange") {
+					if fn, ok := selection.Obj().(*types.Func); ok && fn.Pkg() != nil && fn.Pkg().Path() == "reflect" {
+						add("reflect."+sel.Sel.Name, x) // map order through reflection
+					}
+				}
 				if id, ok := sel.X.(*ast.Ident); ok {
 					if pn, ok := p.TypesInfo.Uses[id].(*types.PkgName); ok {
 						full := pn.Imported().Path() + "." + sel.Sel.Name
@@ -300,6 +309,9 @@ func scanUnsimulated(p *packages.Package, f *ast.File, relf string) {
 							"os.Getenv", "os.Hostname", "os.Getpid", "os.Open", "os.Stat", "os.ReadFile", "os.ReadDir", "io/ioutil.ReadFile", "io/ioutil.ReadDir", "plugin.Open",
 							"runtime.GC", "runtime.NumGoroutine", "runtime.NumCPU", "runtime.GOMAXPROCS":
 							add(full, x)
+						}
+						if strings.HasPrefix(full, "golang.org/x/exp/maps.") && (sel.Sel.Name == "Keys" || sel.Sel.Name == "Values") {
+							add(full, x) // slices in map order
 						}
 						if strings.HasPrefix(full, "math/rand.") || strings.HasPrefix(full, "math/rand/v2.") || strings.HasPrefix(full, "crypto/rand.") {
 							add(full, x)
@@ -357,6 +369,27 @@ func pkgRel(p *packages.Package) string {
 
 func rewriteMapRanges(p *packages.Package, f *ast.File, relf string, sites *[]site, scanOnly bool) (n int, skipped []string) {
 	ast.Inspect(f, func(node ast.Node) bool {
+		// maps.Keys(m) / maps.Values(m) / maps.All(m) (package "maps" of the standard library): iterators in
+		// map order, wherever they are used (range, slices.Collect, slices.Sorted ...)
+		if call, ok := node.(*ast.CallExpr); ok && len(call.Args) == 1 {
+			if sel, ok := call.Fun.(*ast.SelectorExpr); ok {
+				if id, ok := sel.X.(*ast.Ident); ok {
+					if pn, ok := p.TypesInfo.Uses[id].(*types.PkgName); ok && pn.Imported().Path() == "maps" {
+						if h := map[string]string{"Keys": "MapKeys", "Values": "MapValues", "All": "MapAll"}[sel.Sel.Name]; h != "" {
+							sid := pos(p, relf, call)
+							*sites = append(*sites, site{ID: sid, Rule: "R1", Pkg: pkgRel(p)})
+							n++
+							if !scanOnly {
+								call.Fun = &ast.SelectorExpr{X: ast.NewIdent("verifsimrt"), Sel: ast.NewIdent(h)}
+								call.Args = []ast.Expr{&ast.BasicLit{Kind: token.STRING, Value: fmt.Sprintf("%q", sid)}, call.Args[0]}
+								mapsRewritten[relf] = true
+							}
+						}
+					}
+				}
+			}
+			return true
+		}
 		rs, ok := node.(*ast.RangeStmt)
 		if !ok {
 			return true
@@ -856,6 +889,7 @@ package simrt
 
 import (
 	"fmt"
+	"iter"
 	"reflect"
 	"sort"
 	"sync"
@@ -901,6 +935,48 @@ func Range[K comparable, V any](site string, m map[K]V) []Ent[K, V] {
 		out[i] = Ent[K, V]{keys[j].k, m}
 	}
 	return out
+}
+
+// MapKeys / MapValues / MapAll stand for maps.Keys / maps.Values / maps.All.
+func MapKeys[M ~map[K]V, K comparable, V any](site string, m M) iter.Seq[K] {
+	return func(yield func(K) bool) {
+		for _, e := range Range(site, map[K]V(m)) {
+			if _, ok := e.Get(); !ok {
+				continue
+			}
+			if !yield(e.K) {
+				return
+			}
+		}
+	}
+}
+
+func MapValues[M ~map[K]V, K comparable, V any](site string, m M) iter.Seq[V] {
+	return func(yield func(V) bool) {
+		for _, e := range Range(site, map[K]V(m)) {
+			v, ok := e.Get()
+			if !ok {
+				continue
+			}
+			if !yield(v) {
+				return
+			}
+		}
+	}
+}
+
+func MapAll[M ~map[K]V, K comparable, V any](site string, m M) iter.Seq2[K, V] {
+	return func(yield func(K, V) bool) {
+		for _, e := range Range(site, map[K]V(m)) {
+			v, ok := e.Get()
+			if !ok {
+				continue
+			}
+			if !yield(e.K, v) {
+				return
+			}
+		}
+	}
 }
 
 // ---- R2/R3: yields and locks -------------------------------------------------
